@@ -210,7 +210,7 @@ func observeBSP(setting string, optV int, hasOpt bool, conc *Conc, pin bool) ([]
 		}
 		p.Shutdown(ctx)
 		m := maxInt(rec.batches)
-		return conc.absCount(setting, m, 0), fmt.Sprintf("batches=%d max=%d total=%d", len(rec.batches), m, rec.total)
+		return withAll(conc.absCount(setting, m, 0), m), fmt.Sprintf("batches=%d max=%d total=%d", len(rec.batches), m, rec.total)
 	case "bsp.timeout":
 		opts = append(opts, hour)
 		if hasOpt {
@@ -288,10 +288,11 @@ func classifyDelay(setting string, t0 time.Time, entered <-chan struct{}, first 
 		return []string{inconcl + "noisy-scheduler"}, fmt.Sprintf("wake-ups up to %s late during the experiment", worst)
 	}
 	if timedOut {
+		// "late": no timer-driven export in observable time (admissible only for a delay of the value class HUGE)
 		if d >= capT || sound {
-			return []string{"D"}, fmt.Sprintf("no export within %s", capT)
+			return []string{"D", "late"}, fmt.Sprintf("no export within %s", capT)
 		}
-		return []string{"?late"}, fmt.Sprintf("no export within %s", capT)
+		return []string{"late"}, fmt.Sprintf("no export within %s", capT)
 	}
 	el := first().Sub(t0)
 	detail := fmt.Sprintf("first export after %s (scheduler noise %s)", el, worst)
@@ -427,7 +428,7 @@ func observeBLRP(setting string, optV int, hasOpt bool, conc *Conc, pin bool) ([
 		}
 		p.Shutdown(ctx)
 		m := maxInt(rec.batches)
-		return conc.absCount(setting, m, 0), fmt.Sprintf("batches=%d max=%d total=%d", len(rec.batches), m, len(rec.seqs))
+		return withAll(conc.absCount(setting, m, 0), m), fmt.Sprintf("batches=%d max=%d total=%d", len(rec.batches), m, len(rec.seqs))
 	case "blrp.timeout":
 		opts = append(opts, hour)
 		if hasOpt {
